@@ -303,3 +303,36 @@ Fixpoint dedup_lists (qs : list (list nat)) : list (list nat) :=
 
 Definition overlap_state (s : gstate) : bool := overlapb (dedup_lists (quorums s)).
 Definition n_configs (s : gstate) : nat := length (dedup_lists (quorums s)).
+
+(* ---------- monitors evaluated by the trace driver (direct checks, no rule of the protocol) ---------- *)
+
+(* the node recorded as elected for term t, if any *)
+Fixpoint leader_of (t : nat) (l : list (nat * nat * list entry * list nat)) : option nat :=
+  match l with
+  | [] => None
+  | (t', c, _, _) :: r => if t' =? t then Some c else leader_of t r
+  end.
+Definition term_leader (s : gstate) (t : nat) : option nat := leader_of t (leaders s).
+
+(* the prefix a leader is about to commit is comparable with the committed log *)
+Definition commit_comparable (s : gstate) (c k : nat) : bool :=
+  let p := firstn k (log (nodes s c)) in prefixb p (gcommit s) || prefixb (gcommit s) p.
+
+(* a MsgApp of term t with previous index/term and entries is a slice of the log of the leader of t *)
+Definition msgapp_ok (s : gstate) (t prev prevt : nat) (ents : list entry) : bool :=
+  let lg := tlogs s t in
+  (match prev with 0 => true | _ => opt_nat_eqb (term_at lg prev) (Some prevt) end) &&
+  (prev + length ents <=? length lg) &&
+  log_eqb (firstn (length ents) (skipn prev lg)) ents.
+
+(* a heartbeat of term t to j may carry a commit index only up to what j acknowledged in term t,
+   and only what is committed *)
+Definition heartbeat_ok (s : gstate) (t j c : nat) : bool :=
+  match c with 0 => true | _ => ackedb s t c j && (c <=? length (gcommit s)) end.
+
+(* a snapshot of term-t leader: index within the committed log, term as in the leader log *)
+Definition snapshot_ok (s : gstate) (t idx idxt : nat) : bool :=
+  match idx with
+  | 0 => true
+  | _ => (idx <=? length (gcommit s)) && opt_nat_eqb (term_at (gcommit s) idx) (Some idxt)
+  end.
